@@ -6,7 +6,7 @@ from Crypto.Cipher import AES
 import lanimpl
 import simdev
 import vloop
-from common import hx
+from common import hx, lan_of
 from msmart.device.AC.command import GetStateCommand
 from msmart.device.AC.device import AirConditioner as AC
 from msmart.lan import AuthenticationError, ProtocolError
@@ -107,7 +107,7 @@ def run_case(ctx, stream, version, phase, name, make, level):
             if phase == "data":
                 dev.script = [("custom", custom)]
             if level == "lan":
-                r = await ac._lan.send(GetStateCommand().tobytes())
+                r = await lan_of(ac).send(GetStateCommand().tobytes())
                 result["out"] = "ok"
             elif level == "send_command":
                 r = await ac._send_command(GetStateCommand())
